@@ -104,6 +104,20 @@ fn check_text<A: Alphabet>(case: u64, rep: &mut Report, alpha: &str, text: &[u8]
         Ok(()) => rep.cover("outcome.ok"),
         Err(_) => rep.cover("outcome.err"),
     }
+    // half of the short texts (and one longer text in eight) are handed over as a sub-slice that
+    // starts 1..31 bytes after a 32-byte boundary, as `&buf[k..k + n]` of a caller's buffer does
+    let shift = if (text.len() <= 40 && (text.len() + variant) % 2 == 0) || (text.len() + variant) % 8 == 3 { 1 + (text.len() * 7 + variant * 3) % 31 } else { 0 };
+    let mut shifted: Vec<u8> = Vec::new();
+    let text: &[u8] = if shift > 0 {
+        shifted.resize(text.len() + 64, b'A');
+        let base = shifted.as_ptr() as usize;
+        let k = (32 - base % 32) % 32 + shift;
+        shifted[k..k + text.len()].copy_from_slice(text);
+        rep.cover("class.source_not_on_vector_boundary");
+        &shifted[k..k + text.len()]
+    } else {
+        text
+    };
     for arm in 0..ARM_NAMES.len() {
         let got = guard(|| encode_arm::<A>(arm, text, variant));
         unforce();
@@ -114,6 +128,7 @@ fn check_text<A: Alphabet>(case: u64, rep: &mut Report, alpha: &str, text: &[u8]
                 .set("arm", J::s(ARM_NAMES[arm]))
                 .set("variant", J::s(["encode_raw", "encode", "encode_into"][variant % 3]))
                 .set("length", J::u(text.len()))
+                .set("source_offset_from_32_byte_boundary", J::u(shift))
                 .set("text_bytes", J::Arr(text.iter().map(|&b| J::u(b as usize)).collect()))
                 .set("note", J::s(note))
         };
